@@ -64,6 +64,9 @@ func goStmt(v tlaval.Value, ind string) string {
 		return ind + "var reg_" + tlaval.Str(r["v"]) + " uint" + strconv.Itoa(goRsize) + "\n"
 	case "set":
 		return ind + "reg_" + tlaval.Str(r["v"]) + " = " + goExpr(r["e"]) + "\n"
+	case "tuple":
+		goTupleCount++
+		return ind + "reg_" + tlaval.Str(r["v"]) + ", reg_" + tlaval.Str(r["w"]) + " = " + goExpr(r["e"]) + ", " + goExpr(r["f"]) + "\n"
 	case "inc":
 		return ind + "reg_" + tlaval.Str(r["v"]) + "++\n"
 	case "dec":
@@ -77,6 +80,7 @@ func goStmt(v tlaval.Value, ind string) string {
 }
 
 var goRsize = 8
+var goTupleCount int64 // tuple assignments printed (coverage)
 
 func goProgram(prog tlaval.Value, rsize int) string {
 	goRsize = rsize
@@ -401,12 +405,9 @@ func runC12(r *evid.Run) {
 		if len(g.outs) == 0 {
 			continue
 		}
-		for _, inWorker := range []bool{false, true} {
-			src := goLoopProgram(g.prog, g.rsize, inWorker)
-			where := "main"
-			if inWorker {
-				where = "goroutine"
-			}
+		for mode := 0; mode < 3; mode++ {
+			src := goLoopProgram(g.prog, g.rsize, mode)
+			where := [3]string{"main", "goroutine", "one-of-two-goroutines"}[mode]
 			res := runBondgo(bin, filepath.Join(scratch, "sem"), src, g.rsize, "", 20*time.Second)
 			if res.status != "ok" {
 				r.Violate("no-termination:unforced-compilation", fmt.Sprintf("bondgo does not terminate normally (%s) on a generated loop in %s", res.status, where), map[string]interface{}{"source": src, "status": res.status, "output_tail": tailStr(res.out, 400)})
@@ -432,6 +433,19 @@ func runC12(r *evid.Run) {
 				}
 			}
 			loopsCompared++
+			if mode == 2 {
+				// main launches two goroutines: three processors, and the second goroutine counts in threes
+				counts := false
+				for _, st := range streams {
+					if len(st) >= 3 && fmt.Sprint(st[:3]) == fmt.Sprint([][2]uint64{{0, 3}, {0, 6}, {0, 9}}) {
+						counts = true
+					}
+				}
+				if len(streams) != 3 || !counts {
+					r.Violate("wrong-output:second-goroutine-of-one-launcher", fmt.Sprintf("main launches two goroutines: the machine has %d processors (the source has 3 goroutines) and the counting goroutine's stream 3,6,9 is %s", len(streams), map[bool]string{true: "written", false: "not written by any processor"}[counts]), ctx)
+					continue
+				}
+			}
 			if !found {
 				sig := "wrong-output:loop-in-" + where
 				if g.withIf {
@@ -443,6 +457,7 @@ func runC12(r *evid.Run) {
 		}
 	}
 	r.Set("loop_programs_compared", loopsCompared)
+	r.Set("tuple_assignments_printed", goTupleCount)
 
 	// ---- linked goroutines: settled outputs (GoLinked) ---------------------------------------------------------
 	rowPath := filepath.Join(scratch, "linked.ndjson")
@@ -529,7 +544,8 @@ func runC12(r *evid.Run) {
 
 // goLoopProgram prints a GoSubset program as the body of an endless loop, in main or in a goroutine
 // (main then counts on an output of its own).
-func goLoopProgram(prog tlaval.Value, rsize int, inWorker bool) string {
+func goLoopProgram(prog tlaval.Value, rsize int, mode int) string {
+	inWorker := mode > 0
 	goRsize = rsize
 	typ := "uint" + strconv.Itoa(rsize)
 	var sb strings.Builder
@@ -548,7 +564,12 @@ func goLoopProgram(prog tlaval.Value, rsize int, inWorker bool) string {
 	if inWorker {
 		sb.WriteString("func worker() {\n")
 		body(3, 4)
-		sb.WriteString("}\n\nfunc main() {\n\tvar m0 bondgo.Output\n\tvar reg_m " + typ + "\n\tm0 = bondgo.Make(bondgo.Output, 1)\n\tgo worker()\n\tfor {\n\t\treg_m++\n\t\tbondgo.IOWrite(m0, reg_m)\n\t}\n}\n")
+		second := ""
+		if mode == 2 {
+			sb.WriteString("}\n\nfunc counter() {\n\tvar k0 bondgo.Output\n\tvar reg_k " + typ + "\n\tk0 = bondgo.Make(bondgo.Output, 5)\n\tfor {\n\t\treg_k = reg_k + 3\n\t\tbondgo.IOWrite(k0, reg_k)\n\t}\n")
+			second = "\tgo counter()\n"
+		}
+		sb.WriteString("}\n\nfunc main() {\n\tvar m0 bondgo.Output\n\tvar reg_m " + typ + "\n\tm0 = bondgo.Make(bondgo.Output, 1)\n\tgo worker()\n" + second + "\tfor {\n\t\treg_m++\n\t\tbondgo.IOWrite(m0, reg_m)\n\t}\n}\n")
 	} else {
 		sb.WriteString("func main() {\n")
 		body(1, 2)
